@@ -22,6 +22,13 @@ ASSUME = [
     "the model describes the code with fixes/C07-encrypt-ack-participant.patch and "
     "fixes/C07-unsupported-with-skdm-receipt.patch applied (witnesses of the unrepaired code: "
     "C07_notification_ack_unrepaired_refuted, C07_unsupported_with_skdm_refuted)",
+    "connection events: every sequence over {AUTHED, DISCONNECT, DISCONNECTED, CONNECTED} up to length 3 (quick) / 4 "
+    "(thorough) is delivered to one real stack without encryption layers (CONNECTED/DISCONNECTED emitted from below "
+    "the protocol group like the network layer does, AUTHED/DISCONNECT broadcast from inside the protocol group like "
+    "the authentication layer does), with the keep-alive interval property unset / 0 / 50; before the first and after "
+    "every event a server ping and a status notification are delivered and judged by the per-stanza oracle; not in the "
+    "Coq model (the model has no connection state: the statement is per stanza); with interval 50/unset the "
+    "library's real keep-alive thread is started by AUTHED, never fires within a case, is stopped at the end of it",
     "histories: 40 (quick) / 600 (thorough) random sequences of 6-16 answer-bearing stanzas through ONE stack instance, "
     "with earlier ids re-used by other stanzas and whole stanzas delivered again, compared step by step with the "
     "model's run_trace and judged by the per-stanza oracle (theorems C07_*_history)",
@@ -52,6 +59,7 @@ def run(ctx):
             C.sweep(ctx, model, table, select, nvec, profile, stats, judge_answers=True)
             C.history_sweep(ctx, model, select, 40 if ctx.tier == "quick" else 600, stats, judge_answers=True)
             C.traffic_sweep(ctx, model, 1 if ctx.tier == "quick" else 4, profile, stats, judge_answers=True)
+            C.lifecycle_sweep(ctx, 3 if ctx.tier == "quick" else 4, profile, stats)
         except Exception as e:
             if gen is not None:                             # see harness/props/C06.py
                 raise
@@ -76,6 +84,8 @@ def run(ctx):
                                           "field_vectors_per_cell": nvec}
     ctx.coverage["histories_on_one_stack"] = {"histories": stats.get("histories", 0), "steps": stats.get("history_steps", 0),
                                               "steps_reusing_an_earlier_id_or_stanza": stats.get("history_id_reuses", 0)}
+    ctx.coverage["connection_event_sequences"] = dict(stats.get("lifecycle", {}), threads=stats.get("lifecycle_threads", {}),
+                                                      probes_after_every_prefix=list(C.LIFECYCLE_PROBES))
     ctx.coverage["exhaustive"] = False
     for k in sel[::9]:
         obj = k["gen"](random.Random(ctx.seed))
